@@ -30,20 +30,35 @@ def touched_pkgs(patch):
     return sorted(pk)
 
 
+# SEED_WT=<dir>: run the checks against a scratch worktree of /repo HEAD instead of /repo itself (own build and output
+# directories, shifted ports), so that a sweep on /repo can run at the same time. Development aid only.
+SEED_WT = os.environ.get("SEED_WT")
+
+
 def run_checks(name, checks, tier="quick"):
     d = os.path.join("/verif/seeded", name)
-    rc, out = sh("git -C /repo status --porcelain")
+    repo = "/repo"
+    venv = ""
+    if SEED_WT:
+        repo = SEED_WT
+        if not os.path.isdir(repo):
+            rc, out = sh("git -C /repo worktree add --detach %s HEAD" % repo)
+            if rc != 0:
+                sys.exit("cannot create worktree: " + out)
+        sh("git -C %s reset -q --hard && git -C %s checkout -q --detach $(git -C /repo rev-parse HEAD) && git -C %s clean -fdq internal" % (repo, repo, repo))
+        venv = "VERIF_REPO=%s VERIF_BUILD_DIR=%s.build VERIF_OUT_DIR=%s.out VERIF_PORTOFFSET=-10000 " % (repo, repo, repo)
+    rc, out = sh("git -C %s status --porcelain" % repo)
     if out.strip():
-        sys.exit("/repo is dirty, refusing: " + out)
-    rc, out = sh("git -C /repo apply --3way %s/patch.diff 2>&1 || git -C /repo apply %s/patch.diff" % (d, d))
+        sys.exit(repo + " is dirty, refusing: " + out)
+    rc, out = sh("git -C %s apply --3way %s/patch.diff 2>&1 || git -C %s apply %s/patch.diff" % (repo, d, repo, d))
     results = {}
     try:
         if rc != 0:
-            print("patch does not apply to /repo:", out)
+            print("patch does not apply to %s:" % repo, out)
             return {"apply": "failed"}
         for c in checks:
             t0 = time.time()
-            rc, out = sh("./vcheck %s --tier %s" % (c, tier), cwd="/verif", timeout=7200)
+            rc, out = sh(venv + "./vcheck %s --tier %s" % (c, tier), cwd="/verif", timeout=7200)
             viol = re.findall(r"^VIOLATION property=(\S+) replay=(\S+)", out, re.M)
             sigs = []
             for _, rp in viol[:4]:
@@ -54,10 +69,10 @@ def run_checks(name, checks, tier="quick"):
             results[c] = {"exit": rc, "violations": len(viol), "signatures": sorted(set(s for s in sigs if s)), "wall_s": round(time.time() - t0, 1), "tail": out.strip().splitlines()[-3:]}
             print(name, c, "exit", rc, "violations", len(viol), sorted(set(s for s in sigs if s)))
     finally:
-        sh("git -C /repo reset -q && git -C /repo checkout -- . && git -C /repo clean -fdq internal")
-        rc, out = sh("git -C /repo status --porcelain")
+        sh("git -C %s reset -q && git -C %s checkout -- . && git -C %s clean -fdq internal" % (repo, repo, repo))
+        rc, out = sh("git -C %s status --porcelain" % repo)
         if out.strip():
-            print("WARNING /repo not clean after undo:", out)
+            print("WARNING %s not clean after undo:" % repo, out)
     return results
 
 
